@@ -117,6 +117,56 @@ func buildC04(cfg *mon.Config) []*mon.Sub {
 		},
 		Exec: exec,
 	})
+	subs = append(subs, &mon.Sub{
+		Name: "every-code-point", Rule: "every code point of the Basic Multilingual Plane (surrogates excluded; quick: CJK and private-use ranges thinned) and a sample of astral ones, at the start, in the middle and at the end of a short input, on the four built-in tokenizers; same oracle; all distinct",
+		Exhaustive: true, DistinctByGen: true, Floor: 1000,
+		Gen: func(emit func(string)) {
+			step := 1
+			for cp := 1; cp <= 0x10FFFF; cp += step {
+				if cp >= 0xD800 && cp <= 0xDFFF {
+					continue
+				}
+				if cp > 0xFFFF {
+					step = cfg.N(1021, 61)
+				}
+				if cfg.Quick() && cp > 0x3000 && cp < 0xF000 && cp%11 != 0 {
+					continue
+				}
+				ch := string(rune(cp))
+				for _, k := range builtinTokenizers {
+					emit(k + "\x00" + ch + "ab " + ch + "1 x" + ch)
+				}
+			}
+		},
+		Exec: exec,
+	})
+	subs = append(subs, &mon.Sub{
+		Name: "long-tokens", Rule: "single tokens of every class (word, digits, decimal, quoted string, whitespace run, comment, CSV field, mustache text) of the lengths 1..3 around 255, 256, 1023, 1024, 1025, 2048, 4096, 65535 and 70000 characters, alone and between short tokens, on all tokenizer configurations; same oracle",
+		Exhaustive: true, DistinctByGen: true, Floor: 100,
+		Gen: func(emit func(string)) {
+			var lens []int
+			for _, c := range []int{255, 256, 1023, 1024, 1025, 2048, 4096} {
+				lens = append(lens, c-1, c, c+1)
+			}
+			lens = append(lens, 65535, 70000)
+			for _, n := range lens {
+				if cfg.Quick() && n > 5000 {
+					continue
+				}
+				rep := func(s string) string {
+					return strings.Repeat(s, n/len([]rune(s))+1)[:0] + string([]rune(strings.Repeat(s, n/len([]rune(s))+1))[:n])
+				}
+				toks := []string{rep("w"), rep("wé"), rep("7"), rep("3") + "." + rep("4"), "'" + rep("q ") + "'", "\"" + rep("x,") + "\"", rep(" \t"), "/*" + rep("c*") + "*/", "#" + rep("h"), rep("ш"), rep("ab-")}
+				for _, k := range allTokenizers {
+					for _, t := range toks {
+						emit(k + "\x00" + t)
+						emit(k + "\x00" + "a " + t + " b,c")
+					}
+				}
+			}
+		},
+		Exec: exec,
+	})
 	subs = append(subs, corpusSub(cfg, "corpus", "tokenize", func(c *mon.Case, data string) {
 		for _, k := range allTokenizers {
 			c04Check(c, k, data)
